@@ -514,9 +514,14 @@ fn skeleton_mapref(g: &mut G, actions: &mut Vec<Action>) {
     g.nvars += 1;
     actions.push(Action::Observe { node: LAST, pool: Pool::P });
     actions.push(Action::NewMapRef { src: LAST, proj: g.r.below(2) as u8 });
+    // up to two more views stacked on the projection
+    let extra = g.r.below(3);
+    for _ in 0..extra {
+        actions.push(Action::NewMapRef { src: LAST, proj: 2 });
+    }
     let f = g.f1();
     actions.push(Action::NewMap { src: LAST, f, fx: vec![], via: 0 });
-    g.ni += 2;
+    g.ni += 2 + extra;
     actions.push(Action::Observe { node: LAST, pool: Pool::I });
     g.nobs += 2;
     actions.push(Action::Stabilise);
